@@ -46,6 +46,31 @@ func (t *tr) unitSpecCtx(cur Env) *specCtx {
 	return &specCtx{pkg: pkg, vars: vars, cur: cur, old: Env{}, qn: t.qn(), where: t.u.Key}
 }
 
+// assumePointeeInv assumes the value invariants of what a pointer parameter points to (one level):
+// the heap is well-typed on entry.
+func (t *tr) assumePointeeInv(x Term, T types.Type, env Env) {
+	pt, ok := T.Underlying().(*types.Pointer)
+	if !ok {
+		return
+	}
+	x.T = T
+	if st, ok := pt.Elem().Underlying().(*types.Struct); ok {
+		for i := 0; i < st.NumFields(); i++ {
+			ft := st.Field(i).Type()
+			switch ft.Underlying().(type) {
+			case *types.Basic, *types.Slice, *types.Pointer, *types.Map:
+				if fv, ok := t.loadFieldIdx(env, x, i); ok {
+					t.assume(implies(neq(x, intLit(0)), t.typeInv(fv, ft, env)))
+				}
+			}
+		}
+		return
+	}
+	v := sel(t.readIn(env, t.ptrHeap(pt.Elem())), x)
+	v.T = pt.Elem()
+	t.assume(implies(neq(x, intLit(0)), t.typeInv(v, pt.Elem(), env)))
+}
+
 func containsRecover(body *ast.BlockStmt) bool {
 	found := false
 	ast.Inspect(body, func(n ast.Node) bool {
@@ -99,6 +124,7 @@ func (v *Verifier) generate(u *Unit) *UnitResult {
 		pv := t.localVar(o)
 		x := pv.at(0)
 		t.assume(t.typeInv(x, o.Type(), root.Env))
+		t.assumePointeeInv(x, o.Type(), root.Env)
 		if specName != "" {
 			t.params[specName] = x
 		}
